@@ -12,6 +12,7 @@ CONSTANTS
   PeriodicFix = FALSE
   EnqAnywhere = TRUE
   Record = TRUE
+  MaxPre = 1
 INVARIANTS TypeOK OnlyLegalRemovals AcceptedOnly204InOrder DropOnly400 PurgeOnlyOld QueueInOrder PostInOrder WaitFollowsRule NoStrandedBatch
 VIEW View
 CHECK_DEADLOCK FALSE
